@@ -260,9 +260,48 @@ def r5_reader_encoding_and_eol(ctx, rule):
     ctx.floor(rule, RP, n, 1, 'line-terminator strips in the trainer input path')
 
 
+def _validated(ctx, rule):
+    from . import c07
+    return c07.r1b_validate_final_value(ctx, rule)
+
+
+def r7_autodetect(ctx, rule):
+    """Without --encoding the encoding is always taken from detect_file_encoding (which decodes $HEX[] payloads first)."""
+    q = 'trainer.py::main'
+    fn = ctx.fn(q)
+    mod = ctx.repo.modules['trainer.py']
+    calls = [c for c in calls_in(fn) if call_name(c) == 'detect_file_encoding']
+    sets = [s for s in walk_stmts(fn.body) if isinstance(s, ast.Assign) and U(s.targets[0]) == "program_info['encoding']"]
+    facts = {'assignments': [U(s) for s in sets]}
+    if len(calls) != 1:
+        ctx.bad(rule, q, '%d calls of detect_file_encoding' % len(calls), 'the encoding of a list given without --encoding must be '
+                'detected on the decoded content ($HEX[] payloads included)', facts, fn)
+        return
+    cst = c08._stmt_of(mod, calls[0])
+    conds = [(U(t), p) for t, p in path_conditions(mod, cst) if 'parse_command_line' not in U(t)]
+    facts['detect_conditions'] = conds
+    want = [("program_info['encoding'] is None", True)]
+    ok = conds == want or conds == [("program_info['encoding']", False)]
+    # the chosen encoding is the detector's first candidate
+    lst = U(calls[0].args[1]) if len(calls[0].args) > 1 else None
+    appended = [c for c in calls_in(fn) if isinstance(c.func, ast.Attribute) and c.func.attr in ('append', 'insert', 'extend') and U(c.func.value) == lst]
+    if appended:
+        ok = False
+    if len(sets) != 1 or U(sets[0].value) != '%s[0]' % lst:
+        ok = False
+    if ok:
+        ctx.ok(rule, q, 'encoding = first candidate of detect_file_encoding whenever --encoding is not given', facts)
+    else:
+        ctx.bad(rule, q, 'autodetection bypassed or overridden: conditions %s, assignments %s' % (conds, facts['assignments']),
+                'a list whose non-ASCII passwords are all written as $HEX[...] is 7-bit clean; only the detector (which decodes '
+                'the payloads) can find its encoding, so a shortcut around it reads the hex form with another encoding than '
+                'the plain form', facts, cst)
+
+
 def rules(tier):
     return [('C19.R1', r1_three_passes), ('C19.R2', r2_password_count), ('C19.R3', r3_multiplicity_and_r6_strip),
-            ('C19.R4', r4_skip_paths), ('C19.R5', r5_reader_encoding_and_eol)]
+            ('C19.R4', r4_skip_paths), ('C19.R5', r5_reader_encoding_and_eol),
+            ('C19.R6', _validated), ('C19.R7', r7_autodetect)]
 
 
 META = {
